@@ -43,6 +43,20 @@ static Bytes nest_def(uint8_t top_tag, uint8_t inner_tag, const Bytes &pre, cons
     for(size_t i = 1; i <= k; i++) app(o, post);
     return o;
 }
+// definite-length nest whose levels cycle through a pattern of wrappers (pre-bytes + tag): k pattern repetitions around base
+static Bytes nest_cyc(uint8_t top_tag, const std::vector<std::pair<Bytes, uint8_t>> &pat, const Bytes &base, size_t k) {
+    size_t levels = pat.size() * k;
+    std::vector<size_t> clen(levels + 1);
+    clen[0] = base.size();
+    auto hdr = [](size_t len) { size_t h = 2; if(len >= 0x80) { size_t v = len; while(v) { h++; v >>= 8; } } return h; };
+    // level i (1 = innermost wrapper) uses pattern entry (levels - i) % pat.size() when emitted outside-in
+    for(size_t i = 1; i <= levels; i++) { const auto &w = pat[(levels - i) % pat.size()]; clen[i] = w.first.size() + hdr(clen[i - 1]) + clen[i - 1]; }
+    Bytes o; o.reserve(clen[levels] + 8);
+    o.push_back(top_tag); put_len(o, clen[levels]);
+    for(size_t i = levels; i >= 1; i--) { const auto &w = pat[(levels - i) % pat.size()]; app(o, w.first); o.push_back(w.second); put_len(o, clen[i - 1]); }
+    app(o, base);
+    return o;
+}
 static Bytes bits_nest(size_t k) { // k one-bits then a zero bit, padded
     Bytes o((k + 1 + 7) / 8, 0);
     for(size_t i = 0; i < k; i++) o[i / 8] |= (uint8_t)(0x80 >> (i % 8));
@@ -79,6 +93,13 @@ static const Tmpl TEMPLATES[] = {
         Bytes post = B({0, 0}); app(post, V_DEEP); app(post, B({0, 0, 0, 0})); app(o, rep(post, k)); return o; }},
     {"ims.ber-nested-string", "ImS", SY_BER, [](size_t k) { Bytes o = B({0x30, 0x80, 0xa0, 0x80}); app(o, rep(B({0x24, 0x80}), k)); app(o, B({4, 1, 0x41})); app(o, rep(B({0, 0}), k)); app(o, B({0, 0}));
         app(o, B({0x81, 2, 0, 0xff, 0x82, 1, 0x41, 0, 0})); return o; }},
+    // Sim6: recursion only through open types (information object sets)
+    {"nframe.xer", "NFrame", SY_XER, [](size_t k) { Bytes o = reps("<NFrame><ident>2</ident><value><NBox><kind>1</kind><content><NFrames>", k);
+        apps(o, "<NFrame><ident>1</ident><value><NLeaf><n>5</n></NLeaf></value></NFrame>"); app(o, reps("</NFrames></content></NBox></value></NFrame>", k)); return o; }},
+    {"nframe.ber-def", "NFrame", SY_BER, [](size_t k) {
+        // NFrame{ident 2, value [1]{NBox{kind 1, content [1]{NFrames{ NFrame ... }}}}}
+        std::vector<std::pair<Bytes, uint8_t>> pat = {{B({0x80, 1, 2}), 0xa1}, {Bytes(), 0x30}, {B({0x80, 1, 1}), 0xa1}, {Bytes(), 0x30}, {Bytes(), 0x30}};
+        return nest_cyc(0x30, pat, B({0x80, 1, 1, 0xa1, 5, 0x30, 3, 0x80, 1, 5}), k); }},
     // Sim4
     {"rec.ber-def", "Rec", SY_BER, [](size_t k) { return nest_def(0x30, 0xa0, {}, {}, {}, k); }},
     {"rec.ber-indef", "Rec", SY_BER, [](size_t k) { Bytes o = B({0x30, 0x80}); app(o, rep(B({0xa0, 0x80}), k)); app(o, rep(B({0, 0}), k + 1)); return o; }},
